@@ -377,6 +377,24 @@ impl CtxSpec {
         s
     }
 
+    /// Wire form with an inner scope (innermost first) holding `inner`.
+    pub fn wire_with_inner(&self, inner: &[(String, Value)]) -> String {
+        let mut s = String::from("(ctx (scopes (scope");
+        for (n, v) in inner {
+            s.push_str(&format!(" ({} {})", sx_str(n), sx_value_iter_order(v)));
+        }
+        s.push_str(") (scope");
+        for (n, v) in &self.vars {
+            s.push_str(&format!(" ({} {})", sx_str(n), sx_value_iter_order(v)));
+        }
+        s.push_str(")) (funs");
+        for f in &self.funs {
+            s.push_str(&format!(" ({} {})", sx_str(&f.name), fdef_wire(f.kind)));
+        }
+        s.push_str("))");
+        s
+    }
+
     pub fn describe(&self) -> String {
         let mut s = String::new();
         for (n, v) in &self.vars {
